@@ -25,8 +25,8 @@ from . import common, gen, mon
 PROPERTY = 'C13'
 LEVEL = 'exploration'
 RULE = ('every string of length <= 3 (quick) / <= 4 (thorough) over the 24-character alphabet "ab1_ \\n=+-*/.,()[]{}<>`#\'e-acute", every '
-        'token sequence of length <= 3 / <= 4 over 27 tokens (names, numbers, operators, brackets, braces, fences, newline, keywords, '
-        'reserved names), and mutation fuzzing (token deletion, duplication, swap, insertion, bracket imbalance) of valid C01-grammar '
+        'token sequence of length <= 3 / <= 4 over 30 tokens (names, numbers, operators, brackets, braces, fences, newline, keywords, '
+        'reserved names), every sequence of length <= 5 / <= 6 over 8 structural tokens (brackets, fences, newline, backtick, a tiny statement), and mutation fuzzing (token deletion, duplication, swap, insertion, bracket imbalance) of valid C01-grammar '
         'scripts including scripts that call a canary; non-trivial = distinct input string containing "=" ')
 ASSUMPTIONS = ['termination is decided as a logical-step budget of 20000 + 2000 * len(input) executed lines of fsic/parser.py (two orders above the largest observed)',
                'identical duplicate statements count once (they are merged into one equation by design)',
@@ -254,6 +254,14 @@ def run_shard(ctx):
                 if not ctx.mine(idx):
                     continue
                 one_input(ctx, budget, ''.join(tup), 'tokens', errors)
+        # 2b. structural tokens (brackets, fences, newlines around a tiny statement): exhaustive short sequences
+        STRUCT = ['(', ')', '```\n', '\n', 'Y = X', 'x', '=', '`']
+        for L in range(1, ctx.pick(5, 6) + 1):
+            for tup in itertools.product(STRUCT, repeat=L):
+                idx += 1
+                if not ctx.mine(idx):
+                    continue
+                one_input(ctx, budget, ''.join(tup), 'structure', errors)
         # 3. canary scripts and their mutations
         for k, s in enumerate(CANARY_SCRIPTS):
             one_input(ctx, budget, s, 'canary', errors, expect_canary=True)
